@@ -155,3 +155,57 @@ def enc_pub(e: Any) -> str:
         return enc.pub(e)
     except Exception:
         return type(e).__name__
+
+
+def serde_corr(env: Env, out: Outcome, n: int) -> None:
+    """BrokerState.to_serialized -> JSON text -> from_serialized on generated states, twice (stability),
+    against the model's `serde` op."""
+    from workflows.context.context_types import SerializedContext
+    from workflows.context.serializers import JsonSerializer
+    from workflows.runtime.types.internal_state import BrokerState, InternalStepWorkerState
+
+    from . import enc
+
+    g = direct.Gen(random.Random(env.rng.randrange(1 << 30)))
+    ops: list[str] = []
+    exp: list[str] = []
+    ser = JsonSerializer()
+    orig = BrokerState.from_workflow
+    try:
+        for _ in range(n):
+            st = g.state(illformed=False)
+
+            def base(_wf: Any, st: Any = st) -> Any:
+                return BrokerState(is_running=False, config=st.config,
+                                   workers={nm: InternalStepWorkerState(queue=[], config=w.config, in_progress=[], collected_events={},
+                                                                        collected_waiters=[]) for nm, w in st.workers.items()})
+
+            BrokerState.from_workflow = staticmethod(base)  # type: ignore[method-assign]
+            ops += ["cfg " + enc.cfg(st), "state " + enc.state(st)]
+            exp += ["ok", enc.state(st)]
+            cur = st
+            for _rt in range(2):
+                text = cur.to_serialized(ser).model_dump_json()
+                cur = BrokerState.from_serialized(SerializedContext.model_validate_json(text), None, ser)  # type: ignore[arg-type]
+                ops.append("serde")
+                exp.append(enc.state(cur))
+            out.evaluations += 1
+            nip = sum(len(w.in_progress) for w in st.workers.values())
+            nw_ = sum(len(w.collected_waiters) for w in st.workers.values())
+            out.count(f"serde:inprog:{min(nip, 3)}")
+            out.count(f"serde:waiters:{min(nw_, 3)}")
+            if nip or nw_:
+                out.nontrivial(ops[-3])
+    finally:
+        BrokerState.from_workflow = orig  # type: ignore[method-assign]
+    try:
+        mo = Driver("engine").run(ops)
+    except Exception as ex:
+        out.divergences.append(Divergence("engine-serde", 0, "<driver>", repr(ex), ""))
+        return
+    out.traces_validated += n
+    out.disagreements_checked += len(ops)
+    d = diff_streams("engine-serde", ops, mo, exp)
+    if d is not None:
+        d.op, d.model_out, d.impl_out = d.op[:3000], d.model_out[:3000], d.impl_out[:3000]
+        out.divergences.append(d)
